@@ -32,6 +32,7 @@ import Proofs.FormatExpRound
 import Proofs.FormatExpLex
 import Martian.FormatExp
 import Gen.Facts
+import Proofs.FormatCallLex
 
 namespace Props.C09
 open Martian.Format
@@ -270,5 +271,90 @@ theorem reserved_word_not_ident :
   decide
 
 end ValueExpressions
+
+/-! ## call statements: printer / reader round trip
+
+Model: `Martian.FormatCall` (`fmtCall` = `CallStm.format(printer, "")` for a
+call without modifiers, wildcard binding and comments: with nothing else in the
+file, the whole output of `FormatSrcBytes`; `parseCall` = tokenizer + the
+first two alternatives of `call_stm`; `wfCall` = the calls the claim is made
+for; `normCall` = `norm` on every binding expression).  Tied on every run:
+`fmtCall` vs the real formatter byte for byte, `parseCall` vs
+`Parser.UncheckedParse` (dump of `Ast.Call`) on printed, respelled and
+near-miss texts (harness/c09call.go). -/
+section CallStatements
+open Martian.FormatExp Martian.FormatCall
+
+/-- **Round trip.**  For EVERY well-formed call statement (`call` / `map call`,
+with or without `as`, any number of bindings, split bindings of non-empty
+arrays, non-empty maps and references, plain bindings of any well-formed
+expression, ids of any length incl. the 30-byte alignment cut-off), the reader
+accepts the printed text and returns the call up to `norm` of the values. -/
+theorem parse_format_call (c : Call) (hw : wfCall c = true) :
+    parseCall (fmtCall c) = some (normCall c) :=
+  parseCall_fmtCall c hw
+
+/-- **Idempotent.**  Printing what was read back gives the same text. -/
+theorem format_call_idem (c : Call) (hw : wfCall c = true) : fmtCall (normCall c) = fmtCall c :=
+  fmtCall_norm c hw
+
+/-- read-then-print, in one statement: the result is well-formed, prints the same and reads back
+as itself -/
+theorem format_parse_format_call (c c' : Call) (hw : wfCall c = true)
+    (h : parseCall (fmtCall c) = some c') :
+    fmtCall c' = fmtCall c ∧ wfCall c' = true ∧ parseCall (fmtCall c') = some c' := by
+  rw [parse_format_call c hw] at h
+  injection h with h
+  subst h
+  refine ⟨fmtCall_norm c hw, wfCall_norm c hw, ?_⟩
+  rw [parse_format_call _ (wfCall_norm c hw)]
+  congr 1
+  simp only [normCall, List.map_map]
+  congr 1
+  apply List.map_congr_left
+  intro b _
+  simp [normBind, norm_norm]
+
+/-- the lexer sees exactly the intended tokens -/
+theorem lex_format_call (c : Call) (hw : wfCall c = true) : lexAll (fmtCall c) = some (toksCall c) :=
+  lexAll_fmtCall c hw
+
+/-- non-vacuity: a well-formed map call with an `as`, a split array, a split
+reference, a plain struct value (with an integral float, which `norm`
+changes), a plain reference to a call named `split`, and ids of different
+lengths (one of 31 bytes, beyond the alignment cut-off) -/
+example :
+    let c : Call := ⟨[0x53, 0x54], [0x61, 0x6C, 0x69, 0x61, 0x73],
+      [⟨[0x61], true, .arr [.int 1, .str [0x78]]⟩,
+       ⟨[0x62, 0x62, 0x62], true, .ref false [0x58] [[0x6F, 0x78]]⟩,
+       ⟨[0x73, 0x70, 0x6C, 0x69, 0x74], false,
+         .struct [([0x6B], .float [0x31, 0x30, 0x30]), ([0x6C, 0x6F, 0x6E, 0x67], .arr [.null, .bool true])]⟩,
+       ⟨List.replicate 31 0x71, false, .ref false sSplit []⟩,
+       ⟨[0x64, 0x64], true, .map [([0x6B], .ref true [0x70] [])]⟩]⟩
+    wfCall c = true ∧ isMap c = true ∧ idWidth c.binds = 5 ∧ c.id ≠ c.decId ∧
+      (parseCallToks (toksCall c)).map toksCall = some (toksCall (normCall c)) := by decide +kernel
+
+/-- Negative witnesses: the split forms the grammar does not have are outside
+`wfCall` (empty array, struct literal, a number), `split` before a comma or a
+dot is an identifier, and `map call` without a split binding / `call` with one
+are rejected -/
+theorem split_near_misses :
+    wfBind ⟨[0x61], true, .arr []⟩ = false ∧ wfBind ⟨[0x61], true, .struct [([0x6B], .int 1)]⟩ = false ∧
+    wfBind ⟨[0x61], true, .int 1⟩ = false ∧
+    -- call X(a = split,)
+    (parseCallToks [.reserved sCall, .id [0x58], .punct 0x28, .id [0x61], .punct 0x3D, .id sSplit,
+      .punct 0x2C, .punct 0x29]).map toksCall =
+      some (toksCall ⟨[0x58], [0x58], [⟨[0x61], false, .ref false sSplit []⟩]⟩) ∧
+    -- map call X(a = split,)
+    (parseCallToks [.reserved sMap, .reserved sCall, .id [0x58], .punct 0x28, .id [0x61], .punct 0x3D,
+      .id sSplit, .punct 0x2C, .punct 0x29]).isNone = true ∧
+    -- call X(a = split [1],)
+    (parseCallToks [.reserved sCall, .id [0x58], .punct 0x28, .id [0x61], .punct 0x3D, .id sSplit,
+      .punct 0x5B, .int [0x31], .punct 0x5D, .punct 0x2C, .punct 0x29]).isNone = true ∧
+    -- map call X(a = 1,)
+    (parseCallToks [.reserved sMap, .reserved sCall, .id [0x58], .punct 0x28, .id [0x61], .punct 0x3D,
+      .int [0x31], .punct 0x2C, .punct 0x29]).isNone = true := by decide +kernel
+
+end CallStatements
 
 end Props.C09
